@@ -96,6 +96,8 @@ func c03Ops() []c03Op {
 			}}
 	}
 	ops = append(ops, inst("v=[]", nil), inst("v=[a]", []int{1}), inst("v=[a,b,c]", []int{1, 2, 3}))
+	// the element type's zero value written inside a literal (for strings: the empty string), in the middle and alone
+	ops = append(ops, inst("v=[a,zero,c]", []int{1, 0, 3}), inst("v=[zero,zero]", []int{0, 0}))
 	ops = append(ops,
 		c03Op{name: "w=v", ok: always, apply: func(s *c03State) { s.w = s.v },
 			stmts: func(c03State, c03Elem) []Stmt {
@@ -104,6 +106,17 @@ func c03Ops() []c03Op {
 		c03Op{name: "v=w", ok: always, apply: func(s *c03State) { s.v = s.w },
 			stmts: func(c03State, c03Elem) []Stmt {
 				return []Stmt{Assign{Names: []string{"v"}, Vals: []Expr{Var{"w"}}}}
+			}},
+	)
+	// simultaneous assignment of slice variables: the right-hand sides are the OLD references
+	ops = append(ops,
+		c03Op{name: "v,w=w,v (swap)", ok: always, apply: func(s *c03State) { s.v, s.w = s.w, s.v },
+			stmts: func(c03State, c03Elem) []Stmt {
+				return []Stmt{Assign{Names: []string{"v", "w"}, Vals: []Expr{Var{"w"}, Var{"v"}}}}
+			}},
+		c03Op{name: "n,v,w=len(v),w,v (swap with a scalar)", ok: always, apply: func(s *c03State) { s.v, s.w = s.w, s.v },
+			stmts: func(c03State, c03Elem) []Stmt {
+				return []Stmt{Assign{Names: []string{"n", "v", "w"}, Vals: []Expr{Len{X: Var{"v"}}, Var{"w"}, Var{"v"}}}, Print{Args: []Expr{StrLit{V: "n"}, Var{"n"}}}}
 			}},
 	)
 	// writes through v at positions relative to the current length (literal index)
